@@ -47,6 +47,7 @@ fn competitor_block(tag: usize, h: u64, rng: &mut Rng) -> BlockDesc {
                 },
             ],
             locktime: 0xC0FFEE,
+            cs_width: 0,
         }],
     }
 }
